@@ -111,6 +111,7 @@ type vcCtx struct {
 	names map[string]int
 	seenFact map[string]bool
 	fuel   int
+	allocs []*Term // references allocated so far (in execution order)
 }
 
 func (c *vcCtx) assume(t *Term) {
@@ -170,6 +171,11 @@ type frame struct {
 	ranges *rangeEnv
 	symc   map[string]*Val
 	topFC  *FuncContract // contract of the function under proof (inherited by inlined frames)
+	curBlock *ssa.BasicBlock
+	outerOpen []string // `allocated before loop L` predicates of the loops open in the callers
+	fvOuter *frame
+	fvTop  bool
+	fvmap  map[*ssa.FreeVar]ssa.Value // modifies analysis of a closure body: free variable -> captured value in the enclosing function
 }
 
 type deferred struct {
@@ -187,9 +193,10 @@ type hdrInfo struct {
 
 // loopFrame is a declared loop frame: key may change only at refs.
 type loopFrame struct {
-	key  string
-	refs []*Term
-	hdr  *Term
+	key    string
+	refs   []*Term
+	hdr    *Term
+	before string
 }
 
 type contrib struct {
@@ -717,6 +724,7 @@ func (f *frame) run() error {
 		if len(cs) == 0 {
 			continue // unreachable
 		}
+		f.curBlock = b
 		// merge
 		var reach *Term
 		conds := make([]*Term, len(cs))
@@ -1098,6 +1106,17 @@ func (f *frame) enterLoop(h *ssa.BasicBlock, li *loopInfo, cs []contrib) error {
 		}
 		f.e.warn("%s: loop %d modifies unknown locations: whole state havocked", f.fn.Name(), li.Ord)
 	}
+	// everything allocated so far (and everything that existed at function entry) exists before this loop
+	bp := f.beforePred(h)
+	f.e.Defs.noteFunc(bp, []*Sort{SRef}, SBool)
+	f.e.Defs.noteFunc("preexisting", []*Sort{SRef}, SBool)
+	{
+		rr := Const(fmt.Sprintf("bv!%d", f.e.nextBV()), SRef)
+		f.c.assume(Forall([]*Term{rr}, Implies(App("preexisting", SBool, rr), App(bp, SBool, rr)), []*Term{App(bp, SBool, rr)}, []*Term{App("preexisting", SBool, rr)}))
+		for _, a := range f.c.allocs {
+			f.c.assume(App(bp, SBool, a))
+		}
+	}
 	// `loop N modifies` entries, resolved to (key, reference) in the state before the loop
 	declared := map[string][]*Term{}
 	var loopFrames []loopFrame
@@ -1143,7 +1162,7 @@ func (f *frame) enterLoop(h *ssa.BasicBlock, li *loopInfo, cs []contrib) error {
 				}
 				after := f.st.m[k]
 				f.assume(Forall([]*Term{r}, Implies(And(excl...), Eq(Select(after, r), Select(before, r))), []*Term{Select(after, r)}))
-				loopFrames = append(loopFrames, loopFrame{key: k, refs: refs, hdr: after})
+				loopFrames = append(loopFrames, loopFrame{key: k, refs: refs, hdr: after, before: bp})
 				continue
 			}
 		}
@@ -1155,12 +1174,14 @@ func (f *frame) enterLoop(h *ssa.BasicBlock, li *loopInfo, cs []contrib) error {
 		var excl []*Term
 		okRefs := true
 		r := Const(fmt.Sprintf("bv!%d", f.e.nextBV()), SRef)
+		if mi.fresh {
+			excl = append(excl, App(bp, SBool, r))
+		}
 		for _, rv := range mi.refs {
 			if ins, isIns := rv.(ssa.Instruction); isIns && li.Blocks[ins.Block()] {
 				if _, isAlloc := rv.(*ssa.Alloc); isAlloc {
 					// written at an object allocated inside the loop: it did not exist before the loop
-					f.e.Defs.noteFunc("preexisting", []*Sort{SRef}, SBool)
-					excl = append(excl, App("preexisting", SBool, r))
+					excl = append(excl, App(bp, SBool, r))
 					continue
 				}
 				okRefs = false
@@ -1256,8 +1277,7 @@ func (f *frame) backEdge(from, h *ssa.BasicBlock, cond *Term) error {
 		for _, t := range lf.refs {
 			excl = append(excl, Not(Eq(r, t)))
 		}
-		f.e.Defs.noteFunc("preexisting", []*Sort{SRef}, SBool)
-		excl = append(excl, App("preexisting", SBool, r))
+		excl = append(excl, App(lf.before, SBool, r))
 		f.oblige("loop-frame", fmt.Sprintf("loop%d:%s", li.Ord, sanitize(lf.key)), Forall([]*Term{r}, Implies(And(excl...), Eq(Select(cur, r), Select(lf.hdr, r)))), from.Instrs[len(from.Instrs)-1].Pos())
 	}
 	if lc.Decreases != nil && hi.measure != nil {
@@ -1278,9 +1298,20 @@ type modSet struct {
 type modInfo struct {
 	refs    []ssa.Value
 	unknown bool // written at a reference that is not a single SSA value visible here
+	fresh   bool // (also) written at objects allocated while the region runs (inlined callees, closures)
 }
 
 func newModSet() *modSet { return &modSet{keys: map[string]*modInfo{}} }
+
+// addFresh records a write to an object allocated during the region.
+func (m *modSet) addFresh(key string) {
+	mi := m.keys[key]
+	if mi == nil {
+		mi = &modInfo{}
+		m.keys[key] = mi
+	}
+	mi.fresh = true
+}
 
 func (m *modSet) add(key string, ref ssa.Value) {
 	mi := m.keys[key]
@@ -1298,6 +1329,40 @@ func (m *modSet) add(key string, ref ssa.Value) {
 		}
 	}
 	mi.refs = append(mi.refs, ref)
+}
+
+// beforePred names the predicate "r was allocated before loop h was entered".
+func (f *frame) beforePred(h *ssa.BasicBlock) string {
+	return fmt.Sprintf("before!%s%s!b%d", f.prefix, sanitizeIdent(f.fn.Name()), h.Index)
+}
+
+// openLoopPreds lists the before-predicates of all loops the current program point is inside of.
+func (f *frame) openLoopPreds() []string {
+	out := append([]string{}, f.outerOpen...)
+	if f.curBlock != nil {
+		for _, li := range f.loops {
+			if li.Blocks[f.curBlock] && f.hdr[li.Header] != nil {
+				out = append(out, f.beforePred(li.Header))
+			}
+		}
+	}
+	return out
+}
+
+// noteAlloc records a fresh reference: it exists neither at function entry nor before any loop
+// that is currently open.
+func (f *frame) noteAlloc(ref *Term) {
+	if f.c == nil {
+		return
+	}
+	f.e.Defs.noteFunc("preexisting", []*Sort{SRef}, SBool)
+	f.c.assume(Not(App("preexisting", SBool, ref)))
+	f.c.assume(Not(Eq(ref, f.e.nilRef())))
+	for _, p := range f.openLoopPreds() {
+		f.e.Defs.noteFunc(p, []*Sort{SRef}, SBool)
+		f.c.assume(Not(App(p, SBool, ref)))
+	}
+	f.c.allocs = append(f.c.allocs, ref)
 }
 
 // loopModifies computes the state keys a loop may write.
@@ -1372,13 +1437,23 @@ func (f *frame) addrKeys(a ssa.Value, keys *modSet, top bool) bool {
 		}
 		et := x.Type().(*types.Pointer).Elem()
 		for _, k := range f.e.allKeysOf(et) {
-			keys.add(k, refOf(x))
+			if top {
+				keys.add(k, x)
+			} else {
+				keys.addFresh(k) // allocated by an inlined callee / closure while the region runs
+			}
 		}
 		return false
 	case *ssa.IndexAddr:
 		// element of an array (pointer to array) or of a slice value
 		if _, ok := x.X.Type().Underlying().(*types.Pointer); ok {
 			return f.addrKeys(x.X, keys, top)
+		}
+		// slice of a freshly allocated array (varargs): a fresh object
+		if sl, ok := x.X.(*ssa.Slice); ok {
+			if al, ok := sl.X.(*ssa.Alloc); ok {
+				return f.addrKeys(al, keys, top)
+			}
 		}
 		// slice: where was it loaded from?
 		if u, ok := x.X.(*ssa.UnOp); ok && u.Op == token.MUL {
@@ -1389,6 +1464,12 @@ func (f *frame) addrKeys(a ssa.Value, keys *modSet, top bool) bool {
 		keys.add("GLOBAL:"+x.String(), nil)
 		return false
 	case *ssa.Parameter, *ssa.Phi, *ssa.UnOp, *ssa.Call, *ssa.Extract, *ssa.FreeVar:
+		if fv, ok := a.(*ssa.FreeVar); ok && f.fvmap != nil {
+			if outer, ok := f.fvmap[fv]; ok && f.fvOuter != nil {
+				// a store through a captured variable is a store to that variable in the enclosing function
+				return f.fvOuter.addrKeys(outer, keys, f.fvTop)
+			}
+		}
 		pt, ok := a.Type().Underlying().(*types.Pointer)
 		if !ok {
 			return true
@@ -1430,7 +1511,31 @@ func (f *frame) callModifies(cc *ssa.CallCommon, keys *modSet, seen map[*ssa.Fun
 	case *ssa.Function:
 		return f.funcModifies(callee, cc.Args, keys, seen, depth, top)
 	case *ssa.MakeClosure:
-		return f.funcModifies(callee.Fn.(*ssa.Function), nil, keys, seen, depth, false)
+		fn := callee.Fn.(*ssa.Function)
+		if len(fn.Blocks) > 0 && depth <= 4 && !seen[fn] {
+			seen[fn] = true
+			sub := &frame{e: f.e, fn: fn, prefix: f.prefix, pkg: f.pkg, inline: f.inline, topFC: f.topContract(), fvOuter: f, fvTop: top, fvmap: map[*ssa.FreeVar]ssa.Value{}}
+			for i, fv := range fn.FreeVars {
+				if i < len(callee.Bindings) {
+					sub.fvmap[fv] = callee.Bindings[i]
+				}
+			}
+			unknown := false
+			for _, b := range fn.Blocks {
+				for _, ins := range b.Instrs {
+					if sub.instrModifies(ins, keys, seen, depth+1, false) {
+						unknown = true
+					}
+				}
+			}
+			delete(seen, fn)
+			return unknown
+		}
+		return f.funcModifies(fn, nil, keys, seen, depth, false)
+	}
+	// a closure held in a local SSA value loaded from nowhere else: resolve through its definition
+	if mc, ok := cc.Value.(ssa.Value); ok {
+		_ = mc
 	}
 	// call of a function-typed parameter: callback protocol — modifies only its ghost logs and ok flag
 	if _, ok := cc.Value.(*ssa.Parameter); ok {
